@@ -40,7 +40,7 @@ TRUSTED_BASE = [
 ASSUMPTIONS = [
     "integers are mathematical (i + step does not wrap)",
     "a setup value that is the result of an scf.for / scf.if makes the dependency closure bail out, in the model and "
-    "(since /repo fix add6c27) in the Python; generated programs contain that shape",
+    "(since /repo fix 09d2c36) in the Python; generated programs contain that shape",
     "xDSL's greedy driver is not modelled: theorems are per rule application",
 ]
 ALLOWED_AXIOMS: list[str] = []
@@ -100,7 +100,7 @@ def hand_loop(rng, force=None):
     double_launch = rng.random() < 0.15            # the new state is launched twice: three uses of one state
     launch_first = rng.random() < 0.12             # a launch in front of the setup (guard)
     # a launch on the loop-carried state in front of the setup but NESTED in a region (guard must look into regions:
-    # /repo fix 86c56b5; without it that launch observes the next iteration's configuration)
+    # /repo fix 9047e02; without it that launch observes the next iteration's configuration)
     nested_launch_first = rng.choice([""] * 11 + ["if", "if", "for"])
     region_later = rng.random() < 0.2              # a later setup of the body is fed by a region op capturing a later value
     feed_k = rng.random() < 0.75                   # the loop-carried integer is a register value of the moved setup
@@ -165,7 +165,7 @@ def hand_loop(rng, force=None):
         val = "%w2"
     elif chain == "region_if":
         # the value is the result of a side-effect-free scf.if whose region CAPTURES a value of the body
-        # (get_scoped_setup_inputs follows operands only; ops with regions are immovable: /repo fix add6c27)
+        # (get_scoped_setup_inputs follows operands only; ops with regions are immovable: /repo fix 09d2c36)
         B += ["%u2 = arith.addi %w, %x : i32",
               "%w2 = scf.if %c -> (i32) {", "  scf.yield %u2 : i32", "} else {", "  scf.yield %x : i32", "}"]
         val = "%w2"
